@@ -30,12 +30,12 @@ package main
 
 import (
 	"bytes"
-	"os"
-	"path/filepath"
 	"crypto/sha1"
 	"encoding/json"
 	"errors"
 	"fmt"
+	"os"
+	"path/filepath"
 	"sort"
 	"strconv"
 	"strings"
